@@ -1,91 +1,203 @@
 (* C02 - streams deliver every message once, in order, then the correct end-of-stream.
 
    Model: Model/Sys.v (client model x server model x two FIFO wires), arbitrary caller and handler programs
-   ([pol_any]), any number of streams, any interleaving.
+   ([pol_any]), any number of streams and unary calls, any interleaving.
 
-   Proved here: (1) the transport-level half of the property, per stream id and position by position - what a
-   side has read for a stream is a prefix of what the other side wrote for it (equal once wires and read
-   queues are empty); (2) two API-level clauses, end to end: the handler observes io.EOF only if its caller
-   half-closed that stream ([C02_handler_eof_sound_partial]), and every message a handler received is the
-   body of an envelope its caller wrote on that stream ([C02_handler_recv_was_sent_partial]: no fabrication,
-   no alteration towards the handler), and the caller observes io.EOF only if the handler of that stream
-   returned nil - the envelope it took is the very trailer SendTrailer built from that nil return
-   ([C02_caller_eof_sound_partial]), and ORDER towards the handler: the RecvMsg results of a stream handler, in
-   order, are the classifications of a SUBSEQUENCE of the envelopes its caller wrote on that stream, in the
-   order of writing - nothing reordered, duplicated, fabricated or altered ([C02_handler_order_partial]; a gap
-   in the subsequence is a frame dropped because its handler had gone), and ORDER towards the caller: the
-   messages RecvMsg returned on a call, in order, are a subsequence of the bodies of the envelopes the server
-   wrote with the call's id, in the order of writing ([C02_caller_order_partial]). NOT proved: no loss in
-   fault-free runs (prefix instead of subsequence), "EOF only after all messages", EOF completeness (never
-   Canceled on success): they need further facts of the two components (docs/notes-sy.md);
-   the boolean predicates of Check/C02c.v judge all clauses on every recorded history of the real code. *)
+   FAULT-FREE runs ([fault_free]: no read failure, no write failure / blocked write, no Stop, no cancellation of
+   Serve's context), no reset written by the client (= no caller cancellation / deadline / abort on a stream):
+   - [C02_prefix_c2h]: the RecvMsg results of a stream handler are the classifications of a PREFIX of the envelopes
+     its caller wrote on the stream after the opening one (SendMsg's bodies, CloseSend's trailer), in order;
+   - [C02_prefix_h2c]: the messages a caller's RecvMsg returned are a PREFIX of the messages in the envelopes the
+     server's writer accepted under the stream's id (= the SendMsg calls of the handler that returned nil);
+   - [C02_handler_eof_after_all] / [C02_handler_eof_complete] / [C02_handler_eof_delivered]: the handler's RecvMsg
+     yields io.EOF only after everything the caller wrote before its half-close, and (Q-form) a handler waiting
+     in RecvMsg at quiescence has been given everything the caller wrote - io.EOF included if the caller half-closed;
+   - [C02_caller_eof_after_all]: a caller told io.EOF has been given ALL the messages its handler sent;
+   - [C02_caller_eof_complete] (Q-form; caller's context not ended, no SendMsg of the stream failed, the handler
+     returned nil): at quiescence either a message waits for a RecvMsg the caller has not issued, or (done, io.EOF)
+     is published, no RecvMsg is pending, all messages were returned and no RecvMsg ever returned another error
+     than io.EOF (or Unmarshal for an undecodable message): never Canceled;
+   - [C02_link_*]: the step lemmas tying API arguments to envelopes (SendMsg b writes body_env id b and returns nil
+     together; a handler's SendMsg b offers msg_frame k b and returns nil exactly when the writer takes it).
+   ALL runs (arbitrary faults, cancellation, resets):
+   - [C02_wire_c2s_prefix], [C02_wire_s2c_prefix], [C02_wire_complete]: per stream id what a side has read is a
+     prefix of what the other side wrote (equal once wires and inboxes are empty);
+   - [C02_caller_prefix]: the messages RecvMsg returned are a PREFIX of the messages in the envelopes the server
+     WROTE under the stream's id (nothing lost before what was returned; cancellation only truncates);
+   - [C02_handler_order]: the handler's RecvMsg results classify a SUBSEQUENCE of what its caller wrote (a gap is an
+     envelope dropped because the handler had gone or was reset), [C02_caller_order] likewise towards the caller;
+   - [C02_handler_eof_sound], [C02_handler_recv_was_sent], [C02_caller_eof_sound]: io.EOF at the handler only if
+     the caller half-closed; every message received was sent; io.EOF at the caller only if the handler returned nil.
+   The boolean predicates of Check/C02c.v judge all clauses on every recorded history of the real code. *)
 From Coq Require Import List ZArith Bool.
 Import ListNotations.
-From Goat Require Import Model.Client Model.Server Model.Sys Proofs.SysLog Proofs.SysProofs Proofs.SysC01 Proofs.SysC02 Proofs.SysC02b Proofs.SysC02c Proofs.SysC02d Proofs.SysC02e Proofs.SysC02f.
+From Goat Require Import Model.Client Model.Server Model.Sys Proofs.SysLog Proofs.SysProofs Proofs.SysC01 Proofs.SysC02 Proofs.SysC02b
+  Proofs.SysC02c Proofs.SysC02d Proofs.SysC02e Proofs.SysC02f Proofs.SysC02h Proofs.SysC02j Proofs.SysC02k Proofs.SysC02l Proofs.SysC02m Proofs.SysC02n.
 Open Scope Z_scope.
 
-Theorem C02_wire_c2s_prefix_partial : forall pol ls s i, Sys.lrun pol Sys.init ls = Some s ->
+(* ====================== fault-free runs ====================== *)
+Theorem C02_prefix_c2h : forall pol ls s h k,
+  Sys.lrun pol Sys.init ls = Some s -> fault_free ls = true ->
+  (forall e, In (EvWrite e) (Client.log (cl s)) -> erst e = false) ->
+  nth_error (hs (sv s)) h = Some k -> h_unary k = false ->
+  exists fs, recv_results h (Server.log (sv s)) = map recv_res fs /\
+             is_prefix (map f_env fs) (tl (by_id (fid (h_req k)) (cwrites (Client.log (cl s))))).
+Proof. exact SysC02h.C02_prefix_c2h. Qed.
+Print Assumptions C02_prefix_c2h.
+
+Theorem C02_prefix_h2c : forall pol ls s c k,
+  Sys.lrun pol Sys.init ls = Some s -> fault_free ls = true ->
+  nth_error (calls (cl s)) c = Some k -> k_unary k = false -> k_pc k = POpen ->
+  is_prefix (msgs c (Client.log (cl s))) (pb (accepted (k_id k) (sv s))).
+Proof. exact SysC02k.C02_prefix_h2c. Qed.
+Print Assumptions C02_prefix_h2c.
+
+Theorem C02_handler_eof_after_all : forall pol ls s h k R1 R2,
+  Sys.lrun pol Sys.init ls = Some s -> fault_free ls = true ->
+  (forall e, In (EvWrite e) (Client.log (cl s)) -> erst e = false) ->
+  nth_error (hs (sv s)) h = Some k -> h_unary k = false ->
+  recv_results h (Server.log (sv s)) = R1 ++ ORecvEof :: R2 ->
+  exists F1 W2, R1 = map recv_res F1 /\
+                stream_writes (fid (h_req k)) (cl s) = map f_env F1 ++ close_env (fid (h_req k)) :: W2.
+Proof. exact SysC02l.C02_handler_eof_after_all. Qed.
+Print Assumptions C02_handler_eof_after_all.
+
+Theorem C02_handler_eof_complete : forall pol ls s h k,
+  Sys.lrun pol Sys.init ls = Some s -> fault_free ls = true ->
+  (forall e, In (EvWrite e) (Client.log (cl s)) -> erst e = false) ->
+  Sys.quiescent s = true -> Server.inbox (sv s) = [] -> Client.inbox (cl s) = [] ->
+  nth_error (hs (sv s)) h = Some k -> h_unary k = false -> h_pc k = HInRecv ->
+  map f_env (takes h (Server.log (sv s))) = stream_writes (fid (h_req k)) (cl s) /\
+  recv_results h (Server.log (sv s)) = map recv_res (takes h (Server.log (sv s))).
+Proof. exact SysC02l.C02_handler_eof_complete. Qed.
+Print Assumptions C02_handler_eof_complete.
+
+Theorem C02_handler_eof_delivered : forall pol ls s h k,
+  Sys.lrun pol Sys.init ls = Some s -> fault_free ls = true ->
+  (forall e, In (EvWrite e) (Client.log (cl s)) -> erst e = false) ->
+  Sys.quiescent s = true -> Server.inbox (sv s) = [] -> Client.inbox (cl s) = [] ->
+  nth_error (hs (sv s)) h = Some k -> h_unary k = false -> h_pc k = HInRecv ->
+  In (close_env (fid (h_req k))) (stream_writes (fid (h_req k)) (cl s)) ->
+  In ORecvEof (recv_results h (Server.log (sv s))).
+Proof. exact SysC02l.C02_handler_eof_delivered. Qed.
+Print Assumptions C02_handler_eof_delivered.
+
+Theorem C02_caller_eof_after_all : forall pol ls s c k,
+  Sys.lrun pol Sys.init ls = Some s -> fault_free ls = true ->
+  nth_error (calls (cl s)) c = Some k -> k_unary k = false -> k_pc k = POpen ->
+  In (EvRecvRet c (RErr EEof)) (Client.log (cl s)) ->
+  msgs c (Client.log (cl s)) = pb (accepted (k_id k) (sv s)).
+Proof. exact SysC02k.C02_caller_eof_after_all. Qed.
+Print Assumptions C02_caller_eof_after_all.
+
+Theorem C02_caller_eof_complete : forall pol ls s c k t,
+  Sys.lrun pol Sys.init ls = Some s -> fault_free ls = true ->
+  Sys.quiescent s = true -> Server.inbox (sv s) = [] -> Client.inbox (cl s) = [] ->
+  nth_error (calls (cl s)) c = Some k -> k_unary k = false -> k_pc k = POpen ->
+  ctx_done (k_ctx k) = false -> ~ sendfail c (Client.log (cl s)) ->
+  In t (accepted (k_id k) (sv s)) -> final_of t = Some EEof ->
+  (exists b, s_loop k = LHand b) \/
+  (s_done k = true /\ s_rerr k = Some EEof /\ (s_recv k = RNone \/ s_recv k = RParked) /\
+   msgs c (Client.log (cl s)) = pb (accepted (k_id k) (sv s)) /\
+   forall e, In (EvRecvRet c (RErr e)) (Client.log (cl s)) -> e = EEof \/ e = EUnmarshal).
+Proof. exact SysC02n.C02_caller_eof_complete. Qed.
+Print Assumptions C02_caller_eof_complete.
+
+(* the step lemmas tying the arguments of the API calls to the envelopes *)
+Theorem C02_link_send : forall s c k b rest s', nth_error (calls s) c = Some k -> s_sendq k = Some b :: rest -> r_send c s = Some s' ->
+  (exists e, Client.log s' = Client.log s ++ [EvSendRet c (Some e)]) \/
+  (s_done k = true /\ s_rerr k = None /\ Client.log s' = Client.log s ++ [EvSendRet c None]) \/
+  Client.log s' = Client.log s ++ [EvWrite (body_env (k_id k) b); EvSendRet c None].
+Proof. exact SysC02k.C02_link_send. Qed.
+Print Assumptions C02_link_send.
+
+Theorem C02_link_send_arg : forall s c b k, nth_error (calls s) c = Some k -> k_pc k = POpen -> s_sendq k = [] ->
+  exists k', nth_error (calls (Client.ext s (ASend c b))) c = Some k' /\ s_sendq k' = [Some b] /\ k_id k' = k_id k.
+Proof. exact SysC02k.C02_link_send_arg. Qed.
+Print Assumptions C02_link_send_arg.
+
+Theorem C02_link_hsend : forall s h k b, h_unary k = false ->
+  hstep s h k (HSend b) = set_h s h (hset_pc (hset_md k true (h_hdr k) (h_trl k)) (HInSend (msg_frame k b) KMsg)).
+Proof. exact SysC02k.C02_link_hsend. Qed.
+Print Assumptions C02_link_hsend.
+
+Theorem C02_link_haccept : forall s h k f s', nth_error (hs s) h = Some k -> h_pc k = HInSend f KMsg -> r_h_send h s = Some s' ->
+  Server.log s' = Server.log s ++ [SvTaken f; SvOp h OOk].
+Proof. exact SysC02k.C02_link_haccept. Qed.
+Print Assumptions C02_link_haccept.
+
+Theorem C02_link_msg_frame : forall k b, fid (msg_frame k b) = fid (h_req k) /\ tb (f_env (msg_frame k b)) = if b <? 0 then [] else [b].
+Proof. exact SysC02k.C02_link_msg_frame. Qed.
+Print Assumptions C02_link_msg_frame.
+
+(* ====================== all runs: arbitrary faults, cancellation, resets ====================== *)
+Theorem C02_wire_c2s_prefix : forall pol ls s i, Sys.lrun pol Sys.init ls = Some s ->
   is_prefix (by_id i (map f_env (sreads (Server.log (sv s))))) (by_id i (cwrites (Client.log (cl s)))).
 Proof. exact wire_c2s_prefix_id. Qed.
-Print Assumptions C02_wire_c2s_prefix_partial.
+Print Assumptions C02_wire_c2s_prefix.
 
-Theorem C02_wire_s2c_prefix_partial : forall pol ls s i, Sys.lrun pol Sys.init ls = Some s ->
+Theorem C02_wire_s2c_prefix : forall pol ls s i, Sys.lrun pol Sys.init ls = Some s ->
   is_prefix (by_id i (creads (Client.log (cl s)))) (by_id i (map f_env (swrites (Server.log (sv s))))).
 Proof. exact wire_s2c_prefix_id. Qed.
-Print Assumptions C02_wire_s2c_prefix_partial.
+Print Assumptions C02_wire_s2c_prefix.
 
-Theorem C02_wire_complete_partial : forall pol ls s i, Sys.lrun pol Sys.init ls = Some s ->
+Theorem C02_wire_complete : forall pol ls s i, Sys.lrun pol Sys.init ls = Some s ->
   c2s s = [] -> s2c s = [] -> Server.inbox (sv s) = [] -> Client.inbox (cl s) = [] ->
   by_id i (map f_env (sreads (Server.log (sv s)))) = by_id i (cwrites (Client.log (cl s))) /\
   by_id i (creads (Client.log (cl s))) = by_id i (map f_env (swrites (Server.log (sv s)))).
 Proof. exact wire_complete_id. Qed.
-Print Assumptions C02_wire_complete_partial.
+Print Assumptions C02_wire_complete.
+
+(* the messages RecvMsg returned are a PREFIX of the messages in the envelopes the server wrote under the stream's id *)
+Theorem C02_caller_prefix : forall pol ls s c k,
+  Sys.lrun pol Sys.init ls = Some s -> nth_error (calls (cl s)) c = Some k -> k_unary k = false -> k_pc k = POpen ->
+  is_prefix (msgs c (Client.log (cl s))) (pb (by_id (k_id k) (map f_env (swrites (Server.log (sv s)))))).
+Proof. exact SysC02j.C02_caller_prefix. Qed.
+Print Assumptions C02_caller_prefix.
 
 (* the handler observes io.EOF only if its caller half-closed the stream: the OK trailer with the stream's id
    is in the client's write log (CloseSend writes it, nothing else does) *)
-Theorem C02_handler_eof_sound_partial : forall pol ls s h, Sys.lrun pol Sys.init ls = Some s ->
+Theorem C02_handler_eof_sound : forall pol ls s h, Sys.lrun pol Sys.init ls = Some s ->
   In (SvOp h ORecvEof) (Server.log (sv s)) ->
   exists k, nth_error (hs (sv s)) h = Some k /\ In (EvWrite (close_env (fid (h_req k)))) (Client.log (cl s)).
-Proof. exact C02_handler_eof_sound. Qed.
-Print Assumptions C02_handler_eof_sound_partial.
+Proof. exact SysC02b.C02_handler_eof_sound. Qed.
+Print Assumptions C02_handler_eof_sound.
 
 (* every (non-empty) message a handler received is the body of an envelope the caller wrote with that stream's id *)
-Theorem C02_handler_recv_was_sent_partial : forall pol ls s h b, Sys.lrun pol Sys.init ls = Some s ->
+Theorem C02_handler_recv_was_sent : forall pol ls s h b, Sys.lrun pol Sys.init ls = Some s ->
   In (SvOp h (ORecvMsg b)) (Server.log (sv s)) -> b <> 0 ->
   exists k e, nth_error (hs (sv s)) h = Some k /\ In (EvWrite e) (Client.log (cl s)) /\ eid e = fid (h_req k) /\ ebody e = Some b.
-Proof. exact C02_handler_recv_was_sent. Qed.
-Print Assumptions C02_handler_recv_was_sent_partial.
+Proof. exact SysC02b.C02_handler_recv_was_sent. Qed.
+Print Assumptions C02_handler_recv_was_sent.
 
 (* the caller observes io.EOF on a stream only if the handler serving that stream returned nil: the envelope the
    caller took is the trailer that SendTrailer built (status OK) from that return *)
-Theorem C02_caller_eof_sound_partial : forall pol ls s c k, Sys.lrun pol Sys.init ls = Some s ->
+Theorem C02_caller_eof_sound : forall pol ls s c k, Sys.lrun pol Sys.init ls = Some s ->
   nth_error (calls (cl s)) c = Some k -> k_unary k = false ->
   In (EvRecvRet c (RErr EEof)) (Client.log (cl s)) ->
   exists h kh fr, nth_error (hs (sv s)) h = Some kh /\ h_unary kh = false /\ fid (h_req kh) = k_id k /\
                   In (SvRet h) (Server.log (sv s)) /\ In (SvTrailer h fr) (Server.log (sv s)) /\
                   (exists k2, fr = trl_frame k2 HNil) /\ In (EvTake c (f_env fr)) (Client.log (cl s)).
-Proof. exact C02_caller_eof_sound. Qed.
-Print Assumptions C02_caller_eof_sound_partial.
+Proof. exact SysC02d.C02_caller_eof_sound. Qed.
+Print Assumptions C02_caller_eof_sound.
 
 (* order towards the handler: its RecvMsg results, in order, classify a subsequence (same order, no
-   duplication) of the envelopes its caller wrote on the stream *)
-Theorem C02_handler_order_partial : forall pol ls s h k, Sys.lrun pol Sys.init ls = Some s ->
+   duplication) of the envelopes its caller wrote on the stream; a gap is an envelope dropped because the
+   handler had gone or had been reset *)
+Theorem C02_handler_order : forall pol ls s h k, Sys.lrun pol Sys.init ls = Some s ->
   nth_error (hs (sv s)) h = Some k ->
   exists es, subseq es (by_id (fid (h_req k)) (cwrites (Client.log (cl s)))) /\
              exists fs, map f_env fs = es /\ recv_results h (Server.log (sv s)) = map recv_res fs.
 Proof. exact C02_handler_results_order. Qed.
-Print Assumptions C02_handler_order_partial.
+Print Assumptions C02_handler_order.
 
-(* order towards the caller: the messages RecvMsg returned on a call, in order, are a subsequence (same order,
-   no duplication) of the bodies of the envelopes the server wrote with that call's id *)
-Theorem C02_caller_order_partial : forall pol ls s c k, Sys.lrun pol Sys.init ls = Some s ->
+(* order towards the caller, all bodies (the undecodable ones and those riding on a final envelope included) *)
+Theorem C02_caller_order : forall pol ls s c k, Sys.lrun pol Sys.init ls = Some s ->
   nth_error (calls (cl s)) c = Some k ->
   subseq (msgs c (Client.log (cl s))) (tbodies (by_id (k_id k) (map f_env (swrites (Server.log (sv s)))))).
 Proof. exact C02_caller_order_id. Qed.
-Print Assumptions C02_caller_order_partial.
+Print Assumptions C02_caller_order.
 
-(* a concrete run: one stream, two messages echoed, half-close, the handler sees EOF and returns nil, the
-   caller sees both messages and then io.EOF; the final state is quiescent with empty wires *)
 Example C02_demo :
   match Sys.lrun pol_any Sys.init demo_c02 with
   | Some s =>
@@ -100,3 +212,20 @@ Example C02_demo :
   | None => False
   end.
 Proof. vm_compute. tauto. Qed.
+
+(* the same run ends in the second case of [C02_caller_eof_complete]: its hypotheses hold (quiescent, inboxes empty,
+   caller's context live, no failed SendMsg, the OK trailer accepted) and the terminal state is (done, io.EOF) *)
+Example C02_demo_complete :
+  match Sys.lrun pol_any Sys.init demo_c02 with
+  | Some s =>
+      Sys.quiescent s = true /\ Server.inbox (sv s) = [] /\ Client.inbox (cl s) = []
+      /\ map final_of (accepted 1 (sv s)) = [None; None; Some EEof]
+      /\ filter (fun e => match e with EvSendRet _ (Some _) => true | _ => false end) (Client.log (cl s)) = []
+      /\ match nth_error (calls (cl s)) 0 with
+         | Some k => ctx_done (k_ctx k) = false /\ k_pc k = POpen /\ s_done k = true /\ s_rerr k = Some EEof /\ s_recv k = RNone
+         | None => False
+         end
+      /\ msgs 0 (Client.log (cl s)) = pb (accepted 1 (sv s))
+  | None => False
+  end.
+Proof. vm_compute. repeat split; reflexivity. Qed.
